@@ -12,7 +12,7 @@ TOK = re.compile(r"""
     (?P<ws>\s+|//[^\n]*|/\*.*?\*/)
   | (?P<attr>\#!?\[(?:[^\[\]]|\[[^\]]*\])*\])
   | (?P<str>b?"(?:\\.|[^"\\])*")
-  | (?P<chr>b?'(?:\\x[0-9a-fA-F]{2}|\\.|[^\\'])')
+  | (?P<chr>b?'(?:\\x[0-9a-fA-F]{2}|\\u\{[0-9a-fA-F_]+\}|\\.|[^\\'])')
   | (?P<life>'[A-Za-z_][A-Za-z0-9_]*)
   | (?P<num>0x[0-9a-fA-F_]+|0b[01_]+|0o[0-7_]+|[0-9][0-9_]*)(?P<suf>u8|u16|u32|u64|usize|i32|i64|isize)?
   | (?P<id>[A-Za-z_][A-Za-z0-9_]*)
@@ -40,7 +40,9 @@ def tokenize(src):
         elif m.group("chr"):
             c = m.group("chr")
             body = c[c.index("'") + 1:-1]
-            if body.startswith("\\x"):
+            if body.startswith("\\u{"):
+                v = int(body[3:-1].replace("_", ""), 16)
+            elif body.startswith("\\x"):
                 v = int(body[2:], 16)
             elif body.startswith("\\"):
                 v = {"n": 10, "r": 13, "t": 9, "0": 0, "\\": 92, "'": 39, '"': 34}.get(body[1])
